@@ -457,12 +457,26 @@ def _set_item(ex, st, ctx, obj, k, v, node):
         st.assign(m)
 
 
+def _dictlen_step(ex, st, before, after, had, grows):
+    """len() of a dict across one insertion / deletion (instance of the cardinality law, stated where it happens)."""
+    dlen = z3.Function("u_dictlen", KP, I)
+    if grows:
+        ex.assume(st, dlen(after) == dlen(before) + z3.If(had, 0, 1))
+    else:
+        ex.assume(st, dlen(after) == dlen(before) - z3.If(had, 1, 0))
+    ex.assumptions.append(z3.And(dlen(before) >= 0, dlen(after) >= 0))
+
+
 def _dict_set(ex, st, ctx, obj, k, v):
     v = ex.name_val(v)
     ks = simp(dkey2(ex, st, k))
     if z3.is_string_value(ks):
         ex.key_universe.add(ks.as_string())
-    st.heap = st.heap.dset(rval(obj), ks, v)
+    r = rval(obj)
+    before = heap_select(ex, st, st.heap.DP, r)
+    st.heap = st.heap.dset(r, ks, v)
+    if getattr(ex, "track_dict_len", False):
+        _dictlen_step(ex, st, before, z3.Store(before, ks, z3.BoolVal(True)), z3.Select(before, ks), True)
 
 
 def _list_set(ex, st, ctx, obj, k, v, node):
@@ -491,7 +505,10 @@ def del_item(ex, st, ctx, obj, k, node):
     def dd(x):
         ks = simp(dkey2(ex, st, k))
         ex.raise_if(x, ctx, z3.Not(x.heap.dhas(rval(obj), ks)), "KeyError", node=node)
+        before = heap_select(ex, x, x.heap.DP, rval(obj))
         x.heap = x.heap.ddel(rval(obj), ks)
+        if getattr(ex, "track_dict_len", False):
+            _dictlen_step(ex, x, before, z3.Store(before, ks, z3.BoolVal(False)), z3.Select(before, ks), False)
         return x
 
     def dl(x):
